@@ -26,9 +26,29 @@ def main():
     ap.add_argument("--skip-demo", action="store_true")
     ap.add_argument("--tier", default="quick")
     ap.add_argument("--repo", default="/repo")
+    ap.add_argument("--shard", help="i/n: only every n-th change starting with the i-th (for parallel runs)")
+    ap.add_argument("--workers", type=int)
+    ap.add_argument("--out", help="write results here instead of evidence/seeded.json (merge with --merge)")
+    ap.add_argument("--merge", nargs="*", help="merge these result files into evidence/seeded.json and exit")
     args = ap.parse_args()
+    if args.merge is not None:
+        allr = {}
+        out = os.path.join(HERE, "evidence", "seeded.json")
+        for f in args.merge:
+            for x in json.load(open(f))["results"]:
+                allr[x["id"]] = x
+        allr = [allr[k] for k in sorted(allr)]
+        json.dump({"results": allr,
+                   "detected": sum(1 for x in allr if x.get("status") not in ("neutralised", "out_of_scope") and x.get("checks", {}).get(x["property"], {}).get("detected")),
+                   "active": sum(1 for x in allr if x.get("status") not in ("neutralised", "out_of_scope")),
+                   "total": len(allr)}, open(out, "w"), indent=1)
+        print("merged", len(allr))
+        return 0
     base = os.path.join(HERE, "seeded")
     ids = args.ids.split(",") if args.ids else sorted(os.listdir(base))
+    if args.shard:
+        i, n = (int(x) for x in args.shard.split("/"))
+        ids = ids[i::n]
     results = []
     for sid in ids:
         d = os.path.join(base, sid)
@@ -57,6 +77,8 @@ def main():
                 cmd = [PY, os.path.join(HERE, "run.py"), "check", prop, "--tier", args.tier, "--repo", root, "--no-evidence"]
                 if args.budget:
                     cmd += ["--budget", str(args.budget)]
+                if args.workers:
+                    cmd += ["--workers", str(args.workers)]
                 p = subprocess.run(cmd, capture_output=True, text=True)
                 sig = [l.strip() for l in p.stdout.splitlines() if l.strip().startswith("signature:")]
                 detected[prop] = {"detected": p.returncode == 1 and f"VIOLATION property={prop}" in p.stdout,
@@ -70,9 +92,9 @@ def main():
                   {k: ("DETECTED " + str(v["signatures"][:1]) if v["detected"] else f"MISSED(exit {v['exit']})") for k, v in detected.items()}, flush=True)
         finally:
             shutil.rmtree(root, ignore_errors=True)
-    out = os.path.join(HERE, "evidence", "seeded.json")
+    out = args.out or os.path.join(HERE, "evidence", "seeded.json")
     prev = []
-    if os.path.exists(out) and args.ids:
+    if os.path.exists(out) and args.ids and not args.out:
         prev = [x for x in json.load(open(out))["results"] if x["id"] not in {y["id"] for y in results}]
     allr = sorted(prev + results, key=lambda x: x["id"])
     json.dump({"results": allr,
